@@ -41,6 +41,12 @@ def qmethods(cls):
         ("set", ".set(T('t').a, 1)", []), ("columns", ".columns('a', 'b')", []), ("insert", ".insert(1, 2)", []),
         ("insert", ".insert((3, 4), (5, 6))", []), ("replace", ".replace(7, 8)", []), ("ignore", ".ignore()", []),
         ("delete", ".delete()", []), ("into", ".into(T('arch'))", []),
+        # un-aliased sub-queries written inline (no live object is passed, so the lineage replay applies): the invented
+        # name depends on the statement's own counter only, never on what was derived from the same base before
+        ("join", ".join(Query.from_(T('u')).select('a')).on_field('a')", []),
+        ("join", ".join(Query.from_(T('v')).select('a', 'b')).cross()", []),
+        ("join", ".join(Query.from_(T('w')).select('a')).using('a')", []),
+        ("from_", ".from_(Query.from_(T('v')).select('b'))", []),
     ]
     if cls == "mysql":
         m += [("modifier", ".modifier('SQL_CALC_FOUND_ROWS')", []), ("on_duplicate_key_update", ".on_duplicate_key_update(T('t').a, 9)", []),
